@@ -54,6 +54,12 @@ theorem site_epoch_exact (start : Civil) (t : Int)
     siteEpoch .nearest start t = civilToSeconds start + t := by
   simp [siteEpoch, h]
 
+/-- the hypothesis is discharged by C05 for every whole-second start of 1901-2099: **the site is evaluated at
+`start + t`**, for all such starts and all `t` -/
+theorem site_epoch_exact_valid (start : Civil) (t : Int) (h : RV.Props.C05.Valid start) :
+    siteEpoch .nearest start t = civilToSeconds start + t :=
+  site_epoch_exact start t (RV.Props.C05.civil_roundtrip start h)
+
 /-- with the unrepaired `int(second)` rule a scenario starting at 2021-03-30T16:00:01 evaluated
 its ground sites one second early for the whole run (≈ 460 m at the equator) -/
 theorem site_epoch_truncate_early :
